@@ -616,10 +616,74 @@ type hState struct {
 
 var hRunCounter int
 
+// runH: one generated project and history -- or, in the crash-point enumeration mode of C04, one history
+// re-executed once per crash point of one of its invocations (k-th command boundary / k-th yield inside the
+// fingerprint code, k = 1, 2, ... until the trigger no longer fires).
 func runH(t *testing.T, ch *vs.Choices, prop, tier string, render bool) *vs.RunOut {
-	out := &vs.RunOut{Reach: map[string]int{}}
 	p := genHProj(ch, prop)
 	hist := genHistory(ch, p, prop, tier)
+	if prop == "C04" && ch.Bool(1, 4) {
+		ci := -1
+		for i, s := range hist {
+			if strings.HasPrefix(s.Kind, "crash") {
+				ci = i
+				break
+			}
+		}
+		if ci < 0 {
+			for i, s := range hist {
+				if s.Kind == "run" || s.Kind == "run-yes" {
+					hist[i].Kind = []string{"crash-cmd", "crash-fp"}[ch.Draw(2)]
+					ci = i
+					break
+				}
+			}
+		}
+		if ci >= 0 {
+			maxN := 6
+			if tier == "thorough" {
+				maxN = 60
+			}
+			var agg *vs.RunOut
+			for n := 1; n <= maxN; n++ {
+				hist[ci].CrashN = n
+				o := runHOne(t, ch, prop, render, p, hist)
+				fired := o.Reach["fault:crash@cmd"]+o.Reach["fault:crash@fingerprint"] > 0
+				if fired {
+					o.Hit("fault_enumeration:crash_point")
+				}
+				if agg == nil {
+					agg = o
+				} else {
+					agg.Steps += o.Steps
+					agg.Hash = agg.Hash*1099511628211 ^ o.Hash
+					for k, v := range o.Reach {
+						agg.Reach[k] += v
+					}
+					agg.Foreign = append(agg.Foreign, o.Foreign...)
+					if len(o.Violations) > 0 && len(agg.Violations) == 0 {
+						agg.Violations, agg.Rendered = o.Violations, o.Rendered
+					}
+					if o.HarnessError != "" {
+						agg.HarnessError = o.HarnessError
+					}
+					if o.Inconclusive != "" {
+						agg.Inconclusive = o.Inconclusive
+					}
+				}
+				if !fired {
+					agg.Hit("fault_enumeration:histories_exhausted")
+					break
+				}
+			}
+			return agg
+		}
+	}
+	return runHOne(t, ch, prop, render, p, hist)
+}
+
+func runHOne(t *testing.T, ch *vs.Choices, prop string, render bool, p *hProj, hist []hStep) *vs.RunOut {
+	out := &vs.RunOut{Reach: map[string]int{}}
 	yaml := p.YAML()
 	var hs []string
 	for _, s := range hist {
